@@ -376,6 +376,13 @@ func checkC13(rep *Report, rng *Rng, tier string) {
 	rep.Rule = "seeded histories of sets/deletes/overwrites with tied, rising, falling and distinct priorities interleaved with flush/evict/re-open; after every step the implementation's own cached tree (heap dump) is checked for search order under the comparator, exact numNodes/numBytes at every fully cached node and heap order while no key was overwritten with a lower priority; (key,priority,depth) sequences are compared with the Coq model whenever priorities are pairwise distinct (canonical shape); thorough: every insertion order x priority ranking of up to 5 keys; non-trivial = at least 8 ops"
 	HistoryLoop(rep, rng, n, func(r *Rng, i int) (RunCfg, []Op, string) {
 		g := GenCfg{FileBacked: r.Chance(1, 2), NColls: 1 + r.Intn(2), NOps: 30 + r.Intn(80), CmpMode: r.Intn(2), Structural: true, PrioMode: r.Intn(4), NKeys: 5 + r.Intn(40)}
+		if i%3 == 0 {
+			// deeper trees, file-backed: re-opened stores with unloaded subtrees below the mutated paths
+			g.FileBacked, g.NColls, g.NOps, g.NKeys = true, 1, 150+r.Intn(100), 40+r.Intn(40)
+			if g.PrioMode == 0 {
+				g.PrioMode = 2
+			}
+		}
 		ops := GenHistory(r, g)
 		var out []Op
 		for _, o := range ops {
